@@ -118,12 +118,15 @@ def run(ctx):
             base = S.sample_request(c, s["routing"], s["table"], s["xs"], debug=False, meta=meta)
             zreq.append(base); zinfo.append((s, dz, meta, "exact"))
             zreq.append(dict(base, x=base["x"][: dz - 1])); zinfo.append((s, dz, meta, "short"))
-    for rq, a, (s, dz, meta, what) in zip(zreq, run_harness(zreq), zinfo):
+    zres = run_harness(zreq)
+    for k, (rq, a, (s, dz, meta, what)) in enumerate(zip(zreq, zres, zinfo)):
         ctx.case(["V=0", rq["x"], meta, what], nontrivial=True); ctx.count(f"V=0.{what}.{a.get('status')}")
         small = dict(S.small_req(s), x=rq["x"], meta=meta)
         if what == "exact" and a.get("status") == "panic":
             ctx.violation(f"V = 0 sample (return_metadata={meta}) panicked on a point of exactly get_dimension() = {dz} coordinates", small, observed=a)
-        if what == "short" and a.get("status") != "panic":
+        # (a sample that ends in an error of the matrix step or of the Gamma draw stops before the Gaussian coordinates: only a sample that
+        # SUCCEEDS on the exact point has read them all)
+        if what == "short" and zres[k - 1].get("status") == "ok" and a.get("status") != "panic":
             ctx.violation(f"V = 0 sample (return_metadata={meta}): a point with only {dz-1} of get_dimension() = {dz} coordinates is accepted "
                           f"(the Gaussian coordinates were not read)", small, observed=a.get("status"))
     # every coordinate influences the result (perturbation on the f64 code), none beyond the dimension does
